@@ -134,6 +134,8 @@ type c07World struct {
 	upstreams []string
 	// clients is what FindClient answers, keyed by ClientID or IP string.
 	clients map[string]*Client
+	// big makes a part of the records long (1-15 KiB lines in the files).
+	big bool
 	// pad is the number of padding bytes added to the upstream string
 	// (large-file histories).
 	pad int
@@ -323,6 +325,10 @@ func c07RandAnswer(rng *rand.Rand, q dns.Question, rcode int, blocked bool) (m *
 		switch q.Qtype {
 		case dns.TypeAAAA:
 			ip := net.ParseIP(fmt.Sprintf("2001:db8::%x", 1+rng.Intn(65000)))
+			if rng.Intn(2) == 0 {
+				// Every form of address an AAAA record can hold.
+				ip = net.ParseIP(c07V6Forms[rng.Intn(len(c07V6Forms))]).To16()
+			}
 			if blocked {
 				ip = net.IPv6zero
 			}
@@ -343,6 +349,9 @@ func c07RandAnswer(rng *rand.Rand, q dns.Question, rcode int, blocked bool) (m *
 				continue
 			}
 			ip := net.IPv4(byte(1+rng.Intn(222)), byte(rng.Intn(256)), byte(rng.Intn(256)), byte(1+rng.Intn(254)))
+			if rng.Intn(6) == 0 {
+				ip = net.ParseIP([]string{"192.0.2.1", "255.255.255.255", "127.0.0.1", "169.254.1.1", "10.0.0.0"}[rng.Intn(5)])
+			}
 			if blocked {
 				ip = net.IPv4zero
 			}
@@ -351,6 +360,14 @@ func c07RandAnswer(rng *rand.Rand, q dns.Question, rcode int, blocked bool) (m *
 	}
 
 	return m
+}
+
+// c07V6Forms are IPv6 addresses in every form: IPv4-mapped, IPv4-compatible,
+// unspecified, loopback, zero-compressed in several places, link-local, full.
+var c07V6Forms = []string{
+	"::ffff:192.0.2.1", "::ffff:10.0.0.1", "::ffff:0.0.0.0", "::192.0.2.1", "::0.0.1.0", "::", "::1",
+	"2001:db8::1", "2001:db8:0:0:1::1", "2001:db8::1:0:0:1", "2001:0:0:1::", "fe80::1", "fe80::a:b:c:d",
+	"2001:db8:1:2:3:4:5:6", "64:ff9b::192.0.2.33", "ff02::fb",
 }
 
 var c07QTypes = []uint16{
@@ -552,9 +569,72 @@ func c07Gen(rng *rand.Rand, w *c07World, idx int) (p *AddParams, e *c07Entry) {
 		}
 	}
 
+	if w.big && rng.Intn(5) == 0 {
+		c07Inflate(rng, p, e, q)
+	}
+
 	e.Client, _ = w.findClient(c07IDs(e.CID, e.IPStr))
 
 	return p, e
+}
+
+// c07Inflate makes the record long: its line in the file gets 1.5 to 14.5 KiB,
+// below the 16 KiB the file reader is built for.
+func c07Inflate(rng *rand.Rand, p *AddParams, e *c07Entry, q dns.Question) {
+	// Bytes to add to the line.
+	var n int
+	switch rng.Intn(3) {
+	case 0:
+		n = 1200 + rng.Intn(2000)
+	case 1:
+		n = 3000 + rng.Intn(5000)
+	default:
+		n = 8000 + rng.Intn(5500)
+	}
+	kind := rng.Intn(4)
+	if (kind <= 1) && (p.Answer == nil || p.Answer.Rcode != dns.RcodeSuccess) {
+		kind = 3
+	}
+	if kind == 2 && (p.Result == nil || len(p.Result.Rules) == 0 || p.Result.Rules[0].Text == "") {
+		kind = 3
+	}
+	switch kind {
+	case 0:
+		// A big TXT answer.  The packed answer is stored in base64.
+		raw := n * 3 / 4
+		for raw > 0 {
+			var txt []string
+			for k := 0; k < 8 && raw > 0; k++ {
+				l := min(raw, 60+rng.Intn(195))
+				txt = append(txt, strings.Repeat(string(rune('a'+rng.Intn(26))), l))
+				raw -= l + 1
+			}
+			p.Answer.Answer = append(p.Answer.Answer, &dns.TXT{
+				Hdr: dns.RR_Header{Name: q.Name, Rrtype: dns.TypeTXT, Class: dns.ClassINET, Ttl: 60}, Txt: txt})
+			raw -= len(q.Name) + 12
+		}
+	case 1:
+		// An answer of many address records.
+		raw := n * 3 / 4
+		for raw > 0 {
+			ip := net.ParseIP(c07V6Forms[rng.Intn(len(c07V6Forms))]).To16()
+			p.Answer.Answer = append(p.Answer.Answer, &dns.AAAA{
+				Hdr: dns.RR_Header{Name: q.Name, Rrtype: dns.TypeAAAA, Class: dns.ClassINET, Ttl: uint32(rng.Intn(3600))}, AAAA: ip})
+			raw -= len(q.Name) + 28
+		}
+	case 2:
+		// A long rule text.
+		p.Result.Rules[0].Text += "$denyallow=" + strings.Repeat("x"+strconv.Itoa(rng.Intn(10))+".example|", n/11)
+		e.Rules[0].Text = p.Result.Rules[0].Text
+	default:
+		p.Upstream = "https://dns.example/dns-query?token=" + strings.Repeat(strconv.Itoa(rng.Intn(10)), n)
+		e.Upstream = p.Upstream
+	}
+	if kind <= 1 {
+		if _, err := p.Answer.Pack(); err == nil {
+			e.Answer = c07AnsFromMsg(p.Answer)
+		}
+	}
 }
 
 func c07IDs(cid, ip string) (ids []string) {
@@ -692,6 +772,14 @@ func (e *c07Entry) compare(got map[string]any, anon bool) (field, want, have str
 			if err != nil || math.Abs(f-w) > 1e-9*math.Max(1, math.Abs(w)) {
 				return "elapsedMs", strconv.FormatFloat(w, 'f', -1, 64), s
 			}
+		case "answer", "original_answer":
+			ev, ok := exp[k]
+			if !ok {
+				return k, "(absent)", c07Trunc(c07Canon(gv), 300)
+			}
+			if w, h, same := c07SameAnswers(ev, gv); !same {
+				return k, w, h
+			}
 		default:
 			ev, ok := exp[k]
 			if !ok {
@@ -718,6 +806,40 @@ func (e *c07Entry) compare(got map[string]any, anon bool) (field, want, have str
 	}
 
 	return "", "", ""
+}
+
+// c07SameAnswers compares the answer records the API returned with the
+// recorded ones.  Address records are compared as addresses, so that another
+// spelling of the same address is accepted while another address is not (an
+// IPv4-mapped IPv6 address is not its IPv4 address); everything else must be
+// equal as text.
+func c07SameAnswers(want, got any) (w, h string, same bool) {
+	exp, _ := want.([]c07Ans)
+	list, ok := got.([]any)
+	if !ok || len(list) != len(exp) {
+		return fmt.Sprintf("%d records", len(exp)), c07Trunc(c07Canon(got), 300), false
+	}
+	for i, x := range list {
+		m, _ := x.(map[string]any)
+		typ, _ := m["type"].(string)
+		val, _ := m["value"].(string)
+		ttl, _ := m["ttl"].(json.Number)
+		bad := len(m) != 3 || typ != exp[i].Type || ttl.String() != strconv.FormatUint(uint64(exp[i].TTL), 10)
+		if !bad {
+			if typ == "A" || typ == "AAAA" {
+				a, aerr := netip.ParseAddr(exp[i].Value)
+				b, berr := netip.ParseAddr(val)
+				bad = aerr != nil || berr != nil || a != b
+			} else {
+				bad = val != exp[i].Value
+			}
+		}
+		if bad {
+			return fmt.Sprintf("record %d: %s", i, c07Trunc(c07Canon(exp[i]), 300)), fmt.Sprintf("record %d: %s", i, c07Trunc(c07Canon(x), 300)), false
+		}
+	}
+
+	return "", "", true
 }
 
 // c07Term is a search term with the oracle's reading of it.
